@@ -241,6 +241,29 @@ func TestVerifBounded_C13_RowCodec(t *testing.T) {
 		} else if ok, d := c13Equal(row, back.(*c13Row)); !ok {
 			fail("BuildStruct(UnbuildStruct(x))", row, d)
 		}
+		// 1b. the decoded struct owns its data: overwriting the buffers the row was decoded from (database/sql reuses its read
+		// buffer from row to row) must not change it
+		evals++
+		scratch := make([]driver.Value, len(sent))
+		for i, v := range sent {
+			if b, ok := v.([]byte); ok {
+				scratch[i] = append([]byte{}, b...)
+			} else {
+				scratch[i] = v
+			}
+		}
+		if back, err := s.BuildStruct("c13", scratch); err == nil {
+			for _, v := range scratch {
+				if b, ok := v.([]byte); ok {
+					for k := range b {
+						b[k] = '#'
+					}
+				}
+			}
+			if ok, d := c13Equal(row, back.(*c13Row)); !ok {
+				fail("BuildStruct result aliases the source buffer", row, d)
+			}
+		}
 		// 2. each alternative representation of each column, the others as sent
 		for i := range sent {
 			kind := table.Columns[i].Descriptor.Kind
